@@ -74,6 +74,11 @@ pub struct C12Scenario {
     #[serde(default)]
     pub cwd: String,
     pub clock: i64,
+    /// simulated nanoseconds per clock reading (0: time stands still) and apparent CPU count
+    #[serde(default)]
+    pub clock_step_ns: i64,
+    #[serde(default)]
+    pub cpus: u32,
     pub pid: i32,
     pub schedule: Vec<Round>,
     #[serde(default)]
@@ -98,6 +103,8 @@ pub struct JobResult {
     pub clock_calls: u32,
     pub pid_calls: u32,
     pub cwd_calls: u32,
+    #[serde(default)]
+    pub cpu_calls: u32,
     pub getrandom_calls: u32,
     pub foreign_writes: u32,
     pub write_set: Vec<(String, String)>,
